@@ -562,8 +562,7 @@ func genNumericText(t *rapid.T) string {
 			r = append(r, wsPool[rapid.IntRange(0, len(wsPool)-1).Draw(t, "ws")])
 		}
 		core = string(l) + core + string(r)
-		if rapid.IntRange(0, 9).Draw(t, "innerws") == 0 && len(core) > 1 {
-			rs := []rune(core)
+		if rs := []rune(core); rapid.IntRange(0, 9).Draw(t, "innerws") == 0 && len(rs) > 1 {
 			k := rapid.IntRange(1, len(rs)-1).Draw(t, "wpos")
 			core = string(rs[:k]) + " " + string(rs[k:])
 		}
